@@ -7,6 +7,12 @@
 //	BODYW  <content> <ctype> <st0> <hdr|->             request (with the Range line) parsed by http.ReadRequest
 //	STATIC WIRE <target> <st0> <hdr|-> <E-|Ek:v>       request line "GET <target> HTTP/1.1" parsed by http.ReadRequest
 //	STATIC PATH <path>   <st0> <hdr|-> <E-|Ek:v>       URL.Path set directly (as another modifier could leave it)
+//	ROOT <NEW|JSON|JSONMISSING> <rootPath> <target> <st0> <hdr|->   the ROOT CONFIGURATION as a dimension: the
+//	                                         modifier is built from rootPath by static.NewModifier or by the
+//	                                         registered JSON parser (JSONMISSING: no "rootPath" key); the process's
+//	                                         working directory is the temp dir; "{T}" in rootPath/target stands for
+//	                                         that directory, "{O}" for a second temp dir holding a real secret.txt;
+//	                                         OUT paths are reported with those directories renamed /T and /O
 //	CLEAN <p> | JOIN <a> <b> | ATOI <s> | TRIM <s> | ITOA <dec> | LOWER <s>    stdlib ties
 //
 // byte strings are hex tokens (x48656c; x = empty); "-" = header absent.
@@ -33,6 +39,7 @@ import (
 	"net/http"
 	"os"
 	"os/exec"
+	"path"
 	"path/filepath"
 	"regexp"
 	"runtime"
@@ -42,6 +49,7 @@ import (
 
 	"github.com/google/martian/v3/body"
 	mlog "github.com/google/martian/v3/log"
+	"github.com/google/martian/v3/parse"
 	"github.com/google/martian/v3/proxyutil"
 	"github.com/google/martian/v3/static"
 	"verifharness/hx"
@@ -187,6 +195,72 @@ func runBody(in []string) (out []string) {
 
 type tree struct {
 	tmp, root string
+	out       string // a directory outside tmp holding secret.txt (ROOT cases)
+}
+
+func (t *tree) subst(s string) string {
+	return strings.ReplaceAll(strings.ReplaceAll(s, "{T}", t.tmp), "{O}", t.out)
+}
+
+// canon renames the two temp directories in a path reported to the driver.
+func (t *tree) canon(s string) string {
+	s = strings.ReplaceAll(s, t.tmp, "/T")
+	s = strings.ReplaceAll(s, t.tmp[1:], "T") // made relative by a relative root
+	if t.out != "" {
+		s = strings.ReplaceAll(s, t.out, "/O")
+		s = strings.ReplaceAll(s, t.out[1:], "O")
+	}
+	return s
+}
+
+// runRoot: static.Modifier built from a configured root path (relative paths
+// are relative to the working directory = t.tmp).
+func (t *tree) runRoot(in []string) (out []string) {
+	if len(in) != 6 {
+		return []string{"badcase"}
+	}
+	rawroot := t.subst(string(hx.MustUnHex(in[2])))
+	target := t.subst(string(hx.MustUnHex(in[3])))
+	st0, _ := strconv.Atoi(in[4])
+	hdr, hasHdr := tokHdr(in[5])
+	req, err := wireRequest(target, hdr, hasHdr)
+	if err != nil {
+		return []string{"BADREQ"}
+	}
+	var mod interface {
+		ModifyResponse(*http.Response) error
+	}
+	switch in[1] {
+	case "NEW":
+		mod = static.NewModifier(rawroot)
+	case "JSON", "JSONMISSING":
+		cfgJSON := `{"static.Modifier":{"scope":["response"]}}`
+		if in[1] == "JSON" {
+			cfgJSON = `{"static.Modifier":{"scope":["response"],"rootPath":` + strconv.Quote(rawroot) + `}}`
+		} else {
+			rawroot = ""
+		}
+		r, err := parse.FromJSON([]byte(cfgJSON))
+		if err != nil || r.ResponseModifier() == nil {
+			return []string{"badconfig"}
+		}
+		mod = r.ResponseModifier()
+	default:
+		return []string{"badcase"}
+	}
+	// what the configuration means, with the standard library only
+	want := filepath.Join(path.Clean(rawroot), filepath.Clean("/"+req.URL.Path))
+	ent := t.fsEntryKey(want, hx.HexS(t.canon(want)))
+	out = append(hdrToks(req), "path="+hx.HexS(t.canon(req.URL.Path)), "root="+hx.HexS(t.canon(rawroot)), ent)
+	ob := &origBody{}
+	res := upstream(st0, ob, req)
+	defer func() {
+		if r := recover(); r != nil {
+			out = append(out, "PANIC")
+		}
+	}()
+	err = mod.ModifyResponse(res)
+	return append(out, observe(res, ob, err)...)
 }
 
 func pattern(n, salt int) []byte {
@@ -228,7 +302,7 @@ var outsideFiles = map[string][]byte{
 
 func mkTree() *tree {
 	if d := os.Getenv("C20_TREE"); d != "" {
-		return &tree{tmp: d, root: filepath.Join(d, "root")}
+		return &tree{tmp: d, root: filepath.Join(d, "root"), out: os.Getenv("C20_OUT")}
 	}
 	tmp, err := os.MkdirTemp("", "c20tree")
 	if err != nil {
@@ -247,6 +321,12 @@ func mkTree() *tree {
 	}
 	w(t.root, treeFiles)
 	w(t.tmp, outsideFiles)
+	out, err := os.MkdirTemp("", "c20out")
+	if err != nil {
+		panic(err)
+	}
+	t.out, _ = filepath.EvalSymlinks(out)
+	w(t.out, map[string][]byte{"secret.txt": []byte("OUTSIDE-ABS: a real file outside every configured root, asked for by its absolute path")})
 	return t
 }
 
@@ -257,8 +337,12 @@ func (t *tree) fsEntry(want string) string {
 	if want == t.root || strings.HasPrefix(want, t.root+"/") {
 		key = hx.HexS("/R" + strings.TrimPrefix(want, t.root))
 	} else {
-		key = hx.HexS("!OUTSIDE!" + want[len(filepath.Dir(t.root)):])
+		key = hx.HexS("!OUTSIDE!" + t.canon(want))
 	}
+	return t.fsEntryKey(want, key)
+}
+
+func (t *tree) fsEntryKey(want, key string) string {
 	f, err := os.Open(want)
 	switch {
 	case os.IsNotExist(err):
@@ -331,8 +415,12 @@ func (t *tree) runStatic(in []string, child bool) (out []string) {
 }
 
 func (t *tree) runChild(in []string) []string {
-	cmd := exec.Command(os.Args[0], "-c20child")
-	cmd.Env = append(os.Environ(), "C20_TREE="+t.tmp)
+	exe, err := os.Executable()
+	if err != nil {
+		exe = os.Args[0]
+	}
+	cmd := exec.Command(exe, "-c20child")
+	cmd.Env = append(os.Environ(), "C20_TREE="+t.tmp, "C20_OUT="+t.out)
 	cmd.Stdin = strings.NewReader(strings.Join(in, " ") + "\n")
 	var so bytes.Buffer
 	cmd.Stdout = &so
@@ -443,6 +531,8 @@ func runCase(in []string) []string {
 		return runBody(in)
 	case "STATIC":
 		return theTree.runStatic(in, false)
+	case "ROOT":
+		return theTree.runRoot(in)
 	default:
 		return runStd(in)
 	}
@@ -458,6 +548,11 @@ func main() {
 	defer cfg.Close()
 	theTree = mkTree()
 	defer os.RemoveAll(theTree.tmp)
+	defer os.RemoveAll(theTree.out)
+	// relative configured roots (ROOT cases) are relative to the temp dir
+	if err := os.Chdir(theTree.tmp); err != nil {
+		panic(err)
+	}
 	// file descriptors: the static modifier does not close the file on its
 	// range paths (finalizers do); keep the garbage collector ahead of it
 	var rl syscall.Rlimit
